@@ -190,6 +190,9 @@ class StepOps:
             if el is None:
                 return UNKNOWN
             return self._new(env, el) if last == "list" else ("SEQ", tuple(el))
+        if last == "reversed" and len(args) == 1:
+            el = self._elements(args[0], env)
+            return ("SEQ", tuple(reversed(el))) if el is not None else UNKNOWN
         if last == "enumerate" and args:
             return ("enum", args[0], kwargs.get("start", args[1] if len(args) > 1 else 0))
         if last == "isinstance" and len(node.args) == 2 and args and self._is_iter(args[0]):
